@@ -184,10 +184,14 @@ Definition removelast_str (l : list str) : list str := removelast l.
 Definition has_space (k : cfg) (v : str) : bool :=
   if cfg_attr_isspace k then existsb (fun c => mem_Z c py_isspace_table) v else mem_Z SP v.
 
+(* `if "[" in fg: raise ValueError` (ae5d17b): a style string containing a special token such as
+   [ZeroWidthEscape] anywhere is treated as that token *)
+Definition has_bracket (k : cfg) (v : str) : bool := cfg_attr_bracket k && mem_Z 91 v.
+
 Definition open_element (k : cfg) (h : hst) (name : str) (ats : attrs) : hst :=
   let '(fg, bg) := scan_fg_bg ats [] [] in
   let addname := negb (str_eqb name n_document || str_eqb name n_root || str_eqb name n_style) in
-  let verr := h_verr h || has_space k fg || has_space k bg in
+  let verr := h_verr h || has_space k fg || has_space k bg || has_bracket k fg || has_bracket k bg in
   mkhst (HText [] false 0)
         (mkframe name addname (nonempty fg) (nonempty bg) :: h_stack h)
         (if addname then h_names h ++ [name] else h_names h)
